@@ -10,6 +10,7 @@ import (
 	"fmt"
 	"math"
 	"math/rand"
+	"os"
 	"strings"
 	"time"
 
@@ -320,6 +321,60 @@ func opsC17() {
 		}
 		rec["outs"] = outs
 		emit(rec)
+	}
+	// one compiled program, one list buffer whose contents change in place between evaluations (a caller
+	// that recycles its slices): every evaluation answers for the contents at the time of the call
+	reuse := func(opn string, mask int, n int, str bool) {
+		l := &Log{Phase: "compile"}
+		cc, _ := newConf(ConfOpts{Mask: mask}, l)
+		e, err := eval.Compile(cc, "("+opn+" x y)")
+		if err != nil {
+			fmt.Fprintln(os.Stderr, "recycled-buffer program does not compile:", err)
+			os.Exit(2)
+		}
+		ibuf, sbuf := make([]int64, n), make([]string, n)
+		for round := 0; round < 4; round++ {
+			for i := range ibuf {
+				ibuf[i] = int64(round*1000 + i)
+				sbuf[i] = fmt.Sprint("e", ibuf[i])
+			}
+			probe := int64((round%2)*1000 + n/2) // in the buffer in rounds 0 and 1 only... and of round 0's contents in round 2
+			var A, B interface{} = probe, ibuf
+			if str {
+				A, B = fmt.Sprint("e", probe), sbuf
+			}
+			if opn == "overlap" {
+				if str {
+					A = []string{"zz", fmt.Sprint("e", probe)}
+				} else {
+					A = []int64{-5, probe}
+				}
+			}
+			id++
+			rec := M{"fam": "ops", "for": "C17", "kind": opn, "id": id, "a": tv(A), "b": tv(B), "src": "(" + opn + " a b) recycled buffer"}
+			o := safely(func() M {
+				v, err := e.Eval(&eval.Ctx{VariableFetcher: &Fetcher{Vals: Env{"x": A, "y": B}}})
+				return outcomeW(v, err)
+			})
+			if opn == "overlap" {
+				o2 := safely(func() M {
+					v, err := e.Eval(&eval.Ctx{VariableFetcher: &Fetcher{Vals: Env{"x": B, "y": A}}})
+					return outcomeW(v, err)
+				})
+				rec["outs"] = []interface{}{M{"path": "var", "ab": o, "ba": o2}}
+			} else {
+				rec["outs"] = []interface{}{M{"path": "var", "res": o}}
+			}
+			emit(rec)
+		}
+	}
+	for _, n := range []int{3, 63, 64, 65, 100, 128, 300} {
+		for _, mask := range []int{0, 4} {
+			for _, str := range []bool{false, true} {
+				reuse("in", mask, n, str)
+				reuse("overlap", mask, n, str)
+			}
+		}
 	}
 	totals := []int{0, 99, 100, 101, 250}
 	for _, a := range bases {
